@@ -96,7 +96,7 @@ def main(argv=None):
     if 'VERIF_GRAPH_BUDGET_S' not in os.environ:
         # wall-clock budget of one explored graph (the largest graph of the unchanged tree: ~20 s quick, ~250 s thorough)
         from mc import core as _core
-        _core.SHARD_BUDGET_S = 120.0 if a.tier == 'quick' else 1500.0
+        _core.SHARD_BUDGET_S = 45.0 if a.tier == "quick" else 1500.0
     pid = a.pid.upper()
     if a.replay:
         return do_replay(pid, a.replay)
